@@ -833,6 +833,23 @@ def stress_defs(prefix='K'):
              [('P', 'tuple', [('g0', A(P('u8'), 3)), ('g1', ('vec', ('ty', Adt(z3, [], []))))]),
               ('Q', 'named', [('m', ('ty', Adt(z4, [], []))), ('n', ('ty', Str()))]), ('R', 'unit', [])])
     defs.append(d2)
+    # (appended later; the golden corpus only lists the definitions above) units of 32 and 64 behind a string, so
+    # that every padding length up to 63 occurs in front of a block, in both readers
+    z8 = zs('Z8', [('a', P('u16')), ('b', P('u64'))], reprs=('C', 'align(64)'), align=64)
+    d3 = Def(prefix + 'D3', False, 'none', [], 1, [], [],
+             [(prefix + 'D3', 'named', [('s', ('ty', Str())), ('v', ('vec', ('ty', Adt(z8, [], [])))), ('z', ('ty', Adt(z6, [], []))), ('t', P('u8'))])])
+    defs.append(d3)
+    # a zero-copy enum whose alignment comes from the tag only (payloads narrower than the 4-byte C tag), borrowed as a slice
+    e2 = Def(prefix + 'ZE2', True, 'zero', ['C'], 1, [], [],
+             [('A', 'unit', []), ('B', 'tuple', [('g0', P('u8'))]), ('C', 'named', [('x', P('u16'))])])
+    defs.append(e2)
+    d4 = Def(prefix + 'D4', False, 'none', [], 1, [], [],
+             [(prefix + 'D4', 'named', [('s', ('ty', Str())), ('v', ('vec', ('ty', Adt(e2, [], [])))), ('t', P('u8'))])])
+    defs.append(d4)
+    # a generic wrapper whose second field is parameter-typed (hence ε-copied: borrowed), behind a string
+    d5 = Def(prefix + 'D5', False, 'none', [], 1, [{'name': 'A', 'bounds': [], 'default': None, 'role': 'eps'}], [],
+             [(prefix + 'D5', 'named', [('s', ('ty', Str())), ('a', ('param', 0)), ('t', P('u8'))])])
+    defs.append(d5)
     return defs
 
 
